@@ -52,6 +52,17 @@ Sign(d, z) ==
 
 LowS(s) == ~BnIsZero(s) /\ BnLe(s, HalfN)
 
+\* ---- bulk oracle ----------------------------------------------------------------------
+\* A sweep of n signatures is compared through ONE hash: the digests are SHA-256(seed || i as 8 big-endian bytes) for
+\* i = from .. from + n - 1, and the value is SHA-256 over the concatenation of r || s || yParity of Sign(d, digest_i).
+\* BulkSignHash is evaluated natively (overrides/HdwPrims.java, fixed-base comb multiplication) so that 10^5 .. 10^7
+\* signatures per run are feasible; BulkSignHashSpec is its definition (PrimTest compares the two).
+BulkDigest(seed, i) == Sha256(seed \o BnFixed(BnFromNat(i), 8))
+SigBytes(sig) == sig.r \o sig.s \o <<sig.par>>
+BulkSignHashSpec(d, seed, from, n) ==
+  Sha256(Concat([i \in 1..n |-> SigBytes(Sign(d, BulkDigest(seed, from + i - 1)))]))
+BulkSignHash(d, seed, from, n) == BulkSignHashSpec(d, seed, from, n)
+
 \* validity of an observed signature for key d over digest z, independent of how it was made
 GoodSignature(d, z, r, s, par) ==
   /\ Len(r) = 32 /\ Len(s) = 32 /\ par \in {0, 1}
